@@ -150,6 +150,7 @@ def transitions(ntags):
     for f in (0, 1):
         ops.append(('appendF', f))        # append foreign class: rejected
         ops.append(('extendF', f))
+        ops.append(('extendF0', f))       # extend by a foreign-class object holding NO values: still a different class, rejected
         ops.append(('insertF', 0, f))
     return ops
 
@@ -219,6 +220,8 @@ def lib_apply(m, o, op):
         return o.append(foreign(m.cname)[op[1]][1])
     if k == 'extendF':
         return o.extend(foreign(m.cname)[op[1]][1])
+    if k == 'extendF0':
+        return o.extend(type(foreign(m.cname)[op[1]][1]).Empty())
     if k == 'insertF':
         return o.insert(op[1], foreign(m.cname)[op[2]][1])
     raise HarnessError(op)
